@@ -480,7 +480,7 @@ func Mangle(r Rnd, method string, codec bool, structuralOnly bool, frame []byte)
 // MetaCorruptKinds lists the damage done to hbase:meta rows.
 var MetaCorruptKinds = []string{"regioninfo-empty", "regioninfo-short", "regioninfo-bad-magic", "regioninfo-bad-proto", "regioninfo-offline",
 	"regioninfo-no-table", "server-absent", "server-empty", "regioninfo-absent", "rowkey-no-commas", "rowkey-one-comma", "rowkey-garbage", "region-older",
-	"rowkey-other-start", "rowkey-other-table", "region-older-parent"}
+	"rowkey-other-start", "rowkey-other-table", "region-older-parent", "rowkey-search-key"}
 
 // CorruptMeta damages the cells of one meta row.
 func CorruptMeta(r Rnd, cells []Cell) ([]Cell, string) {
@@ -536,6 +536,11 @@ func CorruptMetaKind(r Rnd, cells []Cell, kind string) ([]Cell, string) {
 			// hbase:meta answers with an older incarnation of the region: smaller id, other name
 			j := bytes.LastIndexByte(row, ',')
 			newRow = append(append([]byte(nil), row[:j+1]...), []byte("1.0123456789abcdef0123456789abcdef.")...)
+		case "rowkey-search-key":
+			// the name ends where the id belongs with ":", which makes it equal to
+			// the key the client searches its cache with for the region's start key
+			j := bytes.LastIndexByte(row, ',')
+			newRow = append(append([]byte(nil), row[:j+1]...), ':')
 		case "region-older-parent":
 			// hbase:meta is stale: it answers with the parent the table's regions
 			// were split from, an older region that spans the whole table
